@@ -2,7 +2,7 @@
 # tools/confirm_seed_c.sh <seeded dir>: like confirm_seed.sh for a demonstration written in C against libmla.so (C20).
 D=$(readlink -f "$1")
 WT=/tmp/seedconf/wt-$(basename $D)
-export CARGO_TARGET_DIR=/tmp/seedconf/target CARGO_NET_OFFLINE=true
+export CARGO_TARGET_DIR=/tmp/seedconf/target${LANE:-} CARGO_NET_OFFLINE=true
 mkdir -p /tmp/seedconf
 git -C /repo worktree add --detach $WT HEAD >/dev/null 2>&1
 LOG=$D/confirm.log; : > $LOG
